@@ -141,6 +141,7 @@ def run_case(case, binary, wd):
     toks = crash_tokens(ops)
     nodes = {}
     down = {}
+    dead = {}
     obs = []
     try:
         nodes["n1"] = Node("n1", binary, wd)
@@ -162,11 +163,24 @@ def run_case(case, binary, wd):
                 continue            # sessions are opened at their first command
             if op[0] == "addsec":
                 name = op[2]
-                nodes[name] = Node(name, binary, wd, join=nodes[op[1]].addr)
+                old = dead.pop(name, None)
+                nodes[name] = Node(name, binary, wd, join=nodes[op[1]].addr, ports=(old.tcp, old.ws, old.http) if old else None)
                 time.sleep(START_WAIT)
                 settle()
             elif op[0] == "settle":
                 settle()
+            elif op[0] == "kill":
+                # the node's process dies (SIGKILL): nothing is flushed, its peers see the connections end
+                x = op[1]
+                if x in nodes:
+                    nodes[x].kill()
+                    dead[x] = nodes.pop(x)
+                    time.sleep(0.2)
+            elif op[0] == "revive":
+                # ... and is started again on an empty disk under the same address by the next `addsec`
+                x = op[1]
+                if x in dead:
+                    shutil.rmtree(dead[x].dir, ignore_errors=True)
             elif op[0] == "drop":
                 # the node goes away: a graceful stop (SIGINT -> safe_shutdown) the first time, nothing afterwards
                 x = op[2]
